@@ -106,7 +106,7 @@ def gen_case(ctx, idx, stream='case'):
         c['rows'], c['cols'] = c['rows'] + 7, c['cols'] + 7       # pyjpegls cannot encode tiny frames
     c['workers'] = 0
     if c['ts'] not in NATIVE and r.random() < (0.12 if ctx.tier == 'thorough' else 0.04):
-        c['workers'] = r.choice([2, 'executor'] + ([-1] if ctx.tier == 'thorough' else []))
+        c['workers'] = r.choice([2, 'executor', 'reversing', 'reversing'] + ([-1] if ctx.tier == 'thorough' else []))
     elif c['ts'] in NATIVE and r.random() < 0.02:
         c['workers'] = 'executor'          # has no effect for native syntaxes (a warning), must not change anything
     c['bad'] = None
@@ -347,6 +347,41 @@ def _ts(name):
 _POOL = None
 
 
+class _ReversingExecutor:
+    """An Executor whose tasks *complete in the reverse of the submission order* (they are run, last first, once no
+    submission has arrived for 50 ms).  Gathering results by position is unaffected; gathering them in completion
+    order is not."""
+
+    def __new__(cls):
+        import threading
+        from concurrent.futures import Executor, Future
+
+        class Rev(Executor):
+            def __init__(self):
+                self.items, self.lock, self.timer = [], threading.Lock(), None
+
+            def submit(self, fn, /, *a, **k):
+                f = Future()
+                with self.lock:
+                    self.items.append((f, fn, a, k))
+                    if self.timer is not None:
+                        self.timer.cancel()
+                    self.timer = threading.Timer(0.05, self._drain)
+                    self.timer.daemon = True
+                    self.timer.start()
+                return f
+
+            def _drain(self):
+                with self.lock:
+                    items, self.items = self.items, []
+                for f, fn, a, k in reversed(items):
+                    try:
+                        f.set_result(fn(*a, **k))
+                    except BaseException as e:  # noqa: BLE001
+                        f.set_exception(e)
+        return Rev()
+
+
 def _executor():
     global _POOL
     if _POOL is None:
@@ -361,6 +396,8 @@ def construct(c, src, mask):
     w = c['workers']
     if w == 'executor':
         w = _executor()
+    elif w == 'reversing':
+        w = _ReversingExecutor()
     return hd.seg.Segmentation(
         src, mask, c['type'], [seg_description(s) for s in c['segs']],
         series_instance_uid=hd.UID(), series_number=2, sop_instance_uid=hd.UID(), instance_number=1,
@@ -534,6 +571,8 @@ def run_case(ctx, c, reqs, pending, paths=('memory', 'eager', 'lazy')):
     supplied = list(range(P))
     pr = np.random.default_rng(c['read_perm_seed'])
     sub = [int(x) for x in pr.permutation(P)[:int(pr.integers(1, P + 1))]]
+    if pr.random() < 0.4:
+        sub.insert(int(pr.integers(0, len(sub) + 1)), sub[int(pr.integers(0, len(sub)))])     # a source named twice
     frac = c['type'] == 'FRACTIONAL'
     for path, obj in objs.items():
         for order, oname in ((supplied, 'supplied'), (sub, 'subset')):
@@ -556,7 +595,7 @@ def run_case(ctx, c, reqs, pending, paths=('memory', 'eager', 'lazy')):
                 bad = np.argwhere(got.astype(np.int64) != want)[:3].tolist() if got.shape == want.shape else 'shape'
                 ctx.fail(case, {'what': 'read-back differs from the mask passed in', 'shape_got': list(got.shape),
                                 'shape_want': list(want.shape), 'first_diffs': bad}, site=f'read/{path}')
-            if path == 'memory' and oname == 'supplied':
+            if path == 'memory':
                 reqs.append(('roundtrip', dict(margs, request=order, allow_missing=True)))
                 pending.append((case, 'read', None,
                                 got.astype(np.int64).transpose(0, 3, 1, 2).reshape(len(order), -1, n).tolist()
